@@ -146,6 +146,10 @@ pub struct KnownFindings {
 
 impl KnownFindings {
     pub fn load() -> KnownFindings {
+        // VERIF_STRICT=1: no tolerance at all (used to regenerate the committed minimal cases of listed findings)
+        if std::env::var("VERIF_STRICT").map(|v| v == "1").unwrap_or(false) {
+            return KnownFindings::default();
+        }
         let path = Path::new(VERIF_ROOT).join("known_findings.json");
         let Ok(text) = std::fs::read_to_string(&path) else {
             return KnownFindings::default();
